@@ -1,11 +1,8 @@
 #!/bin/bash
-# seedrun.sh <seed name> <property>... : applies /verif/seeded/<seed>/patch.diff to /repo, runs the checks, undoes it
-S=$1; shift
-cd /repo && git apply /verif/seeded/$S/patch.diff || { echo "apply failed"; exit 2; }
+# usage: tools/seedrun.sh <seed-id> [property]   - applies one seeded change to /repo, runs the property's check, undoes it
 cd /verif
-for p in "$@"; do
-  out=$(./check $p 2>&1); rc=$?
-  echo "SEED $S check $p exit=$rc $(echo "$out" | grep -E '^VIOLATION' | head -1)"
-  echo "$out" | grep -E '"what"|"history"' | head -2
-done
+s=$1; p=${2:-${s%%-*}}
+git -C /repo apply /verif/seeded/$s/patch.diff || { echo "$s APPLY-FAILED"; exit 2; }
+out=$(./check $p 2>&1); rc=$?
 git -C /repo checkout -- .
+echo "$s $p exit=$rc $(echo "$out" | grep -E '^VIOLATION' | head -1) | $(echo "$out" | grep -E '"what"' | head -1 | cut -c1-240)"
